@@ -817,6 +817,26 @@ def object_reuse_failures(rng, count):
                 fails.append({"kind": "history", "function": "stream_run", "case": {"first": a, "second": b},
                               "impl": core.canon_exc(e), "clause": "reusing a Config object raised"})
             try:
+                # (3) the same Config run again on the same observations WITHOUT their time / depth axes: a test that
+                #     needs such an axis can no longer run and must drop out (nothing remembered from the first run)
+                if a["time"] is not None or a["z"] is not None:
+                    import copy
+                    a3 = copy.deepcopy(a)
+                    a3["time"], a3["z"] = None, None
+                    cfg = Config(build_config(a))
+                    list(_run_with(cfg, a))
+                    again = canon(a3, list(_run_with(cfg, a3)))
+                    fresh = canon(a3, run_frontend({k: v for k, v in a3.items() if k not in ("axis_names", "time_tz")}))
+                    n_eval += 2
+                    if again != fresh:
+                        fails.append({"kind": "history", "function": "stream_run", "case": {"first": a, "second": a3},
+                                      "impl": fresh, "impl_reused_config": again,
+                                      "clause": "a Config object run again on a table without time / depth axes gives other "
+                                                "results than a fresh one (inputs of the earlier run were kept)"})
+            except Exception as e:  # noqa: BLE001
+                fails.append({"kind": "history", "function": "stream_run", "case": {"first": a},
+                              "impl": core.canon_exc(e), "clause": "re-running a Config object without axes raised"})
+            try:
                 # (2) a Config whose list of calls is EDITED in place after a run (same number of calls, other
                 #     windows): the next run must be that of a fresh Config of the edited configuration
                 if a["time"] is not None and any(c["start"] is not None or c["end"] is not None for c in a["cfg"]):
